@@ -32,6 +32,7 @@ type prodCfg struct {
 	Version      string  `json:"version"`
 	Acks         string  `json:"acks"` // "" or local, all, none
 	Codec        int     `json:"codec"`
+	LogAppend    bool    `json:"logAppend"` // the topic uses LogAppendTime: produce responses carry the broker's append time
 	Partitioner  string  `json:"partitioner"`
 	Interceptors int     `json:"interceptors"`
 	ReadTimeout  int     `json:"readTimeoutMs"`
@@ -282,6 +283,7 @@ func runProducerScenario(t testing.TB, rec *vRec, sc *prodScenario) {
 		c.plans[n] = p
 	}
 	c.initPidFault = cfgv.InitPidFault
+	c.logAppend = cfgv.LogAppend
 
 	// gates
 	gates := map[string]*gateState{}
